@@ -157,13 +157,20 @@ def run_program(prog, seed, sg=None, repeat_fixed=1, poison=None):
                 parts = sg.unbind(z, 1)
                 u = sg.stack([parts[2], parts[0], parts[1]], 1)
                 v = (u @ w) + (z @ w) * 0.5               # z and w have fan-out 2
-                loss = sg.log_softmax(v, 1).sum() + v.mean()
-                loss.backward()
-                for t in (loss, x, w):
-                    for a in (t.data, t.grad.data):
-                        a = np.asarray(a)
-                        hh.update(str(a.shape).encode()); hh.update(a.dtype.str.encode()); hh.update(a.tobytes())
-                step_digests.append(hh.hexdigest())
+                vn = nn.functional.batch_norm(v, None, None, None, None, True)        # batch statistics
+                loss = sg.log_softmax(v, 1).sum() + v.mean() + (vn * vn * vn).sum() * 0.25
+                # the same recorded graph is differentiated twice (gradients cleared in between): what backward
+                # computes must not depend on how often it has run
+                for _pass in range(2):
+                    hh = hashlib.sha256()
+                    if _pass:
+                        x.zero_(); w.zero_()
+                    loss.backward()
+                    for t in (loss, x, w):
+                        for a in (t.data, t.grad.data):
+                            a = np.asarray(a)
+                            hh.update(str(a.shape).encode()); hh.update(a.dtype.str.encode()); hh.update(a.tobytes())
+                    step_digests.append(hh.hexdigest())
             fixed_digests.append(step_digests)
             h.update(step_digests[-1].encode())
     return h.hexdigest(), fixed_digests
